@@ -575,6 +575,12 @@ class MultiVector:
     def __getinitargs__(self):
         return (self.data, self.space)
 
+    def __getstate__(self):
+        # Memoized results (in particular the hash, which depends on the
+        # string hash seed of the process) must not travel in pickles.
+        return {name: value for name, value in self.__dict__.items()
+                if not name.startswith("_memoize_dic_")}
+
     mapper_method = "map_multivector"
 
     # {{{ stringification
